@@ -294,3 +294,15 @@ func Main(m *testing.M) {
 	Flush()
 	os.Exit(code)
 }
+
+// Tag marks a harness failure message as inconclusive when it stems from the environment rather than
+// from the code under test (no free port, descriptor or memory limits); the driver then exits 2 instead
+// of reporting a violation.
+func Tag(msg string) string {
+	for _, p := range []string{"address already in use", "too many open files", "cannot assign requested address", "no buffer space", "cannot allocate memory", "bind:", "listen udp", "listen tcp", "connection refused", "i/o timeout", "harness: dial"} {
+		if strings.Contains(msg, p) {
+			return "VERIF-INCONCLUSIVE " + msg
+		}
+	}
+	return msg
+}
